@@ -108,6 +108,14 @@ def source_def(ctx):
     vlib.proof_phase_extra(ctx, 'Properties_def_source')
 
 
+# augment_methods (classes of the virtual parameters, update-time unknown_class_error): translators/augmeth.py -> Gen/GenMeth.v
+SOURCE_METH = ('C01',)
+
+
+def source_meth(ctx):
+    vlib.proof_phase_extra(ctx, 'Properties_meth_source')
+
+
 def main(pid, assumptions, level='proof', explanation=None):
     ctx = vlib.Ctx(pid)
     if ctx.replay:
@@ -134,6 +142,8 @@ def main(pid, assumptions, level='proof', explanation=None):
         source_slot(ctx)
     if pid in SOURCE_DEF:
         source_def(ctx)
+    if pid in SOURCE_METH:
+        source_meth(ctx)
     res = coresuite.dispatch_suite(ctx.tier, ctx.seed)
     cov = coresuite.summarize(ctx, res, pid)
     if pid == 'C03':
